@@ -33,7 +33,7 @@ theorem parseIpmiReq_encode (h : ReqHdr) (data : List Nat) (hl1 : h.rsLun < 4) (
   rw [e]
   have c1 := checksum_sum [h.rsSa, h.netfn * 4 + h.rsLun]
   have c2 := checksum_sum ([h.rqSa, h.rqSeq * 4 + h.rqLun, h.cmd] ++ data)
-  simp only [List.sum_cons, List.sum_nil, List.sum_append, List.cons_append, List.nil_append] at c1 c2
+  simp only [List.sum_cons, List.sum_nil, List.cons_append, List.nil_append] at c1 c2
   simp only [parseIpmiReq, List.getLast?_concat, List.dropLast_concat]
   have d1 : (h.netfn * 4 + h.rsLun) / 4 = h.netfn := by omega
   have d2 : (h.netfn * 4 + h.rsLun) % 4 = h.rsLun := by omega
@@ -119,10 +119,6 @@ theorem rxStep_reply (md5 : List Nat → List Nat) (hmd5 : ∀ x, (md5 x).length
   simp [hcmd]
   exact List.dropLast_concat (l₁ := cc :: data)
 
-/-- header of the next request of client `c` -/
-def hdrOf (cfg : Cfg) (c : Client) (cmd : Nat) : ReqHdr :=
-  ⟨cfg.rsSa, 6, 0, cfg.rqSa, (c.rqSeq + 1) % 64, 0, cmd⟩
-
 theorem ipmbEncode_length (h : ReqHdr) (data : List Nat) : (ipmbEncode h data).length = data.length + 7 := by
   simp [ipmbEncode]
 
@@ -133,23 +129,6 @@ theorem step_parsed (md5 : List Nat → List Nat) (b : BmcCfg) (st : BmcState) (
     (hrq : parseIpmiReq p.payload = some rq) (hb : rq.rsAddr = bmcAddr) :
     step md5 b st d = handle md5 b st p rq := by
   cases hph : st.phase <;> simp_all [step]
-
-theorem tx_unattached (md5 : List Nat → List Nat) (b : BmcCfg) (st : BmcState) (cfg : Cfg) (c : Client)
-    (cmd : Nat) (data : List Nat) (hat : c.attached = false) (hrs : cfg.rsSa = 0x20)
-    (hlen : data.length + 7 ≤ 255) (hs : st.phase ≠ .start) (hc : st.phase ≠ .closed) :
-    ∃ d, txStep md5 cfg c 6 0 cmd data = ({ c with rqSeq := (c.rqSeq + 1) % 64 }, hdrOf cfg c cmd, .ok d) ∧
-      step md5 b st d = handle md5 b st
-        { ver := 6, rsvd := 0, rmcpSeq := 255, cls := 7, auth := 0, seq := 0, sid := 0, code := none,
-          len := data.length + 7, payload := ipmbEncode (hdrOf cfg c cmd) data }
-        (reqOf (hdrOf cfg c cmd) data) := by
-  have hl : (ipmbEncode (hdrOf cfg c cmd) data).length ≤ 255 := by rw [ipmbEncode_length]; exact hlen
-  obtain ⟨d, h1, h2⟩ := pack_wellformed_nosession md5 (ipmbEncode (hdrOf cfg c cmd) data) 255 hl (by decide)
-  refine ⟨d, ?_, ?_⟩
-  · simp [txStep, hat, sessAfterPack, hdrOf, rmcpInitialSeq] at h1 ⊢
-    exact h1
-  · rw [ipmbEncode_length] at h2
-    exact step_parsed md5 b st d _ _ hs hc h2 rfl rfl (by simp [ipmbEncode_length])
-      (parseIpmiReq_encode _ _ (by simp [hdrOf]) (by simp [hdrOf])) (by simp [reqOf, hdrOf, hrs, bmcAddr])
 
 
 end PyIpmi.Session
